@@ -260,6 +260,20 @@ CHECKS = {
         technique="TLA+ AAD/ordinal model (TLC exhaustive) + TLC-enumerated option x tamper space replayed on the code + TLC trace monitor",
         design_ref="DESIGN.md section 5 C18",
     ),
+    "C19": dict(
+        level="differential_testing",
+        text="Variant.tla states the variant binary encoding (metadata dictionary, primitives, short strings, objects "
+             "with sorted unique keys, arrays, large layouts) as a decoder over bytes, value equality, and the "
+             "value/typed_value reconstruction rule for primitive shreddings. TLC enumerates value kinds and shredding "
+             "schema x write mode; the harness builds the trees (and its own description of them), calls Encode, Marshal "
+             "and the Builder, writes files with unshredded and shredded variant columns from Go values and from raw "
+             "variant bytes and reads them back raw (convert to unshredded), typed, and as physical leaves; VarMon.tla "
+             "makes TLC decode every byte string and compare it with the tree written.",
+        note="Object and list shreddings are judged through the read modes only; reading through a different shredded "
+             "schema is not judged; rows whose kind the Go mapping cannot express are compared in raw mode only.",
+        technique="executable TLA+ specification of the variant encoding and shredding rule evaluated by TLC over TLC-enumerated value kinds x shredding schemas run on the code",
+        design_ref="DESIGN.md section 5 C19",
+    ),
     "C20": dict(
         level="model_checking",
         text="CodecPool.tla models the pooled Decompressor protocol (instance taken from / returned to the pool, "
